@@ -68,22 +68,31 @@ Proof.
   destruct (calc_size b (blen d)); [|exact I]. destruct (_ =? _); exact I.
 Qed.
 
-Theorem tie_readfrom fuel c s : run_flat (pc_read fuel c) s <> FFuel ->
-  opt_bind (read_result "p" (run_g res_env (mkPrims (fun c _ _ => (c, OErr)) fuel) exp_PaletteContainer_ReadFrom (VCont c) [VReader s]))
+(* the palette read is a parameter of the interpreter: any reader that agrees with the model's pal_read on the
+   palette the configuration creates (wherever that one does not run out of fuel) *)
+Theorem tie_readfrom_gen (sf : prims) fuel c s :
+  (forall b s', run_flat (pal_read fuel (cfg_create (ccfg c) b)) s' <> FFuel ->
+                p_pread sf (cfg_create (ccfg c) b) s' = run_flat (pal_read fuel (cfg_create (ccfg c) b)) s') ->
+  run_flat (pc_read fuel c) s <> FFuel ->
+  opt_bind (read_result "p" (run_g res_env sf exp_PaletteContainer_ReadFrom (VCont c) [VReader s]))
            cont_res
   = Some (run_flat (pc_read fuel c) s).
 Proof.
-  intros Hnf. destruct c as [b cf p d].
+  intros Hp Hnf. destruct c as [b cf p d]. cbn [ccfg] in Hp.
   unfold run_g, exec_body, run_fuel, res_env.
   cbn [g_recv g_params g_body exp_PaletteContainer_ReadFrom bind_all map fst].
   step. step.
   destruct s as [|b0 s]; cbv beta iota.
   - (* no byte for the width *)
     step. reflexivity.
-  - step. step. step. step. cbn [p_rfuel].
+  - step. step. step. step.
     unfold pc_read. cbn [run_flat ccfg cdata]. cbv zeta.
     rewrite run_flat_bind by apply pal_read_robust.
     set (bb := Z.of_N (b0 mod 256)).
+    assert (Hnf1 : run_flat (pal_read fuel (cfg_create cf bb)) s <> FFuel).
+    { intros E1. apply Hnf. unfold pc_read. cbn [run_flat ccfg cdata]. cbv zeta.
+      rewrite run_flat_bind by apply pal_read_robust. fold bb. rewrite E1. reflexivity. }
+    rewrite (Hp bb s Hnf1).
     destruct (run_flat (pal_read fuel (cfg_create cf bb)) s) as [[p1 n1] s1|e|w|] eqn:E1; cbv beta iota.
     + step. step. step.
       rewrite run_flat_bind by apply read_robust.
@@ -99,6 +108,11 @@ Proof.
       * step. step. reflexivity.
     + step. step. reflexivity.
     + reflexivity.
-    + exfalso. apply Hnf. unfold pc_read. cbn [run_flat ccfg cdata]. cbv zeta.
-      rewrite run_flat_bind by apply pal_read_robust. fold bb. rewrite E1. reflexivity.
+    + exfalso. apply Hnf1. reflexivity.
 Qed.
+
+Theorem tie_readfrom fuel c s : run_flat (pc_read fuel c) s <> FFuel ->
+  opt_bind (read_result "p" (run_g res_env (mkPrims (fun c _ _ => (c, OErr)) fuel) exp_PaletteContainer_ReadFrom (VCont c) [VReader s]))
+           cont_res
+  = Some (run_flat (pc_read fuel c) s).
+Proof. intros H. apply tie_readfrom_gen; [reflexivity|exact H]. Qed.
